@@ -128,7 +128,7 @@ func init() {
 			}
 			return []string{"release", "noopt", "nooptl", "race"}
 		},
-		Required: []string{"cmp/equal", "cmp/prefix", "cmp/differ", "cmp/same-bytelen", "cmp/diff-bytelen", "cmp/empty-vs-nonempty", "upto/a-shorter", "upto/a-equal", "upto/a-longer",
+		Required: []string{"arguments-in-read-only-memory", "cmp/equal", "cmp/prefix", "cmp/differ", "cmp/same-bytelen", "cmp/diff-bytelen", "cmp/empty-vs-nonempty", "upto/a-shorter", "upto/a-equal", "upto/a-longer",
 			"upto/empty-b", "upto/unaligned-b", "upto/dirty-spare-capacity", "cmp/prefix-view-same-base-address", "new/aligned-empty-after-scribble", "upto/long>=8", "upto/short<8", "str/site=arg", "str/site=field", "str/site=elem", "str/site=closure", "str/site=map", "str/site=substr"},
 		Families: func(c *mon.Config) []mon.Family {
 			rows := 4051
@@ -178,6 +178,20 @@ func c09CheckCmp(w *mon.W, a, b *c09Enc) bool {
 		}
 	} else {
 		w.State["c09n"] = n + 1
+		if n&3 == 2 && n&31 == 2 { // and now and then in memory that cannot be written (ro.go)
+			roReset(w)
+			ra, rb := roBytes(w, a.enc), roBytes(w, b.enc)
+			if rel, ok := roSeal(w); ok {
+				w.Op = "Cmp(read-only encodings)"
+				g2 := bitstr.Cmp(ra, rb)
+				rel()
+				if g2 != exp {
+					w.Fail("Cmp/differs-on-read-only-arguments", mon.D{"a": fmt.Sprintf("%x", a.enc), "b": fmt.Sprintf("%x", b.enc), "got": g2, "expected": exp})
+					return false
+				}
+				w.Bucket("arguments-in-read-only-memory")
+			}
+		}
 	}
 	return true
 }
@@ -234,6 +248,21 @@ func c09CheckUpto(w *mon.W, a string, b *c09Enc) bool {
 	if db, gb := dirtyB(b.enc); bitstr.CmpUpto(ab, db) != exp || bitstr.StrCmpUpto(a, db) != exp || int(bitstr.Len(db)) != nb || !gb() || string(db) != string(b.enc) {
 		w.Fail("CmpUpto/depends-on-or-writes-memory-around-b", d("CmpUpto(b with dirty spare capacity)", bitstr.CmpUpto(ab, db)))
 		return false
+	}
+	// both arguments (the plain string's bytes too) in memory that cannot be written (ro.go)
+	if (len(a)+nb)%4 == 1 {
+		roReset(w)
+		ra, rb, rs := roBytes(w, ab), roBytes(w, b.enc), roStr(w, a)
+		if rel, ok := roSeal(w); ok {
+			w.Op = "CmpUpto/StrCmpUpto/Len(read-only arguments)"
+			g1, g2, g3 := bitstr.CmpUpto(ra, rb), bitstr.StrCmpUpto(rs, rb), int(bitstr.Len(rb))
+			rel()
+			if g1 != exp || g2 != exp || g3 != nb {
+				w.Fail("CmpUpto/differs-on-read-only-arguments", d("CmpUpto(read-only arguments)", g1))
+				return false
+			}
+			w.Bucket("arguments-in-read-only-memory")
+		}
 	}
 	// the same bytes inside a larger buffer whose spare capacity is dirty: bytes beyond len(a) are not
 	// part of the argument, so the result must not change and they must not be written
